@@ -46,6 +46,13 @@ mod worker;
 #[cfg(test)]
 mod tests;
 
+// verification hook: harnesses live outside the repository and are compiled in-crate
+#[cfg(nucleo_verif)]
+#[allow(dead_code, unused_imports, unused_macros, unexpected_cfgs)]
+mod verif {
+    include!(concat!(env!("NUCLEO_VERIF_DIR"), "/nucleo/mod.rs"));
+}
+
 /// A match candidate stored in a [`Nucleo`] worker.
 pub struct Item<'a, T> {
     pub data: &'a T,
